@@ -193,6 +193,8 @@ def function_term(f: FuncInfo) -> Term:
                 c = expr_term(s.test, f, env, aliases)
                 t1 = block(s.body)
                 t2 = block(s.orelse) if s.orelse else ("empty",)
+                if t1 == ("empty",) and t2 == ("empty",):
+                    continue        # (an ``if`` that only asserts / binds contributes no element)
                 out.append(("if", c, t1, t2))
                 continue
             if isinstance(s, (ast.Pass, ast.Assert)):
